@@ -18,7 +18,7 @@ RULE = ('random small images (1x1..24x24) per generator class (integer ties, pla
         'SourceFinder); non-trivial = reference finds >=2 components before pruning OR prunes >=1 component; '
         'distinct by digest of (data, threshold, mask, npixels, connectivity)')
 CLASSES = ['ties', 'thr2d', 'plateau', 'checker', 'naninf', 'masked', 'tiny', 'prune',
-           'quantity', 'threshold_fn', 'finder']
+           'quantity', 'threshold_fn', 'finder', 'mixprec']
 MUST_REACH = ['photutils.segmentation.detect:detect_sources',
               'photutils.segmentation.detect:_detect_sources',
               'photutils.segmentation.detect:detect_threshold']
@@ -64,11 +64,31 @@ def _gen(case):
         data = ((yy + xx) % 2).astype(float) * float(rng.integers(1, 4))
         # knock out some squares
         data[rng.random(shape) < 0.2] = 0.0
+    elif cls == 'mixprec':
+        # image in a narrower / different dtype than the (float64) threshold image; the threshold sits
+        # within a few float64 ulps (or exactly on) the float64 value of the pixel, so any rounding of
+        # data or threshold to the other's precision flips strict comparisons
+        dt = [np.float32, np.float32, np.float16, np.int16, np.uint8, np.int32][int(rng.integers(0, 6))]
+        if np.dtype(dt).kind == 'f':
+            base = rng.choice([0.1, 0.3, 1.7, 2.6, 1e-3], size=shape) * rng.integers(1, 4, size=shape)
+            data = base.astype(dt)
+        else:
+            data = rng.integers(0, 6, size=shape).astype(dt)
     else:  # threshold_fn
         data = rng.normal(10.0, 2.0, size=shape)
     thr = float(rng.integers(-1, 4)) if cls != 'threshold_fn' else 10.0
     if cls == 'plateau' or cls == 'checker':
         thr = float(rng.choice([0.0, 0.5, 1.0, 2.0]))
+    if cls == 'mixprec':
+        d64 = data.astype(np.float64)
+        thr = d64.copy()
+        r = rng.random(shape)
+        below = r < 0.45                       # threshold just below the pixel value: must be detected
+        above = (r >= 0.45) & (r < 0.7)        # just above: must not
+        thr[below] = np.nextafter(d64[below], -np.inf)
+        thr[above] = np.nextafter(d64[above], np.inf)
+        if rng.random() < 0.3:                 # scalar threshold taken from one pixel's float64 value
+            thr = float(np.nextafter(d64.flat[int(rng.integers(0, d64.size))], -np.inf))
     if cls == 'thr2d':
         thr = rng.integers(-1, 4, size=shape).astype(float)
         sel = rng.random(shape) < 0.4
@@ -121,6 +141,9 @@ def run_case(case):
     from photutils.utils.exceptions import NoDetectionsWarning
     rng = case.rng
     data, thr, npix, conn, mask = _gen(case)
+    if case.cls == 'mixprec' and np.ndim(thr) == 0:
+        thr = np.float64(thr)     # a strongly typed scalar: numpy compares in float64 (a Python float would
+        #                           be "weak" and legitimately compared in the image's own precision)
     case.params = dict(shape=list(data.shape), npixels=npix, connectivity=conn,
                        thr=('2d' if np.ndim(thr) else thr), masked=mask is not None)
     case.digest = core.arr_digest(data, np.asarray(thr), mask, np.array([npix, conn])) + case.cls
@@ -132,7 +155,7 @@ def run_case(case):
 
     ref = ccl.detect_reference(data, thr, npix, conn, mask)
     with np.errstate(invalid='ignore'):
-        above = (data > thr) & (~mask if mask is not None else True)
+        above = (data.astype(np.float64) > np.asarray(thr, np.float64)) & (~mask if mask is not None else True)
     _, sizes = ccl.label_components(above, conn)
     case.nontrivial = len(sizes) >= 2 or any(s < npix for s in sizes)
 
